@@ -30,19 +30,20 @@ RULE = ("seeded entries (headers with inner blanks/'>'/';'/unicode; nucleotide, 
 TRUSTED = ["str.splitlines/'\\n'.join (TextFile.read/write) modelled as identity on lines without line breaks",
            "urllib.parse.quote/unquote modelled from their source (byte scanner); UTF-8 codec trusted",
            "re (qualifier splitting), float()/str(float), numpy int8 arithmetic modelled by documented semantics"]
-ASSUMPTIONS = ["GenBank qualifier text and ORIGIN block and Sequence<->string conversion are exercised by the oracle only "
+ASSUMPTIONS = ["Sequence<->string conversion, the LOCUS line and GenPept specifics are exercised by the oracle only "
                "(not modelled in Lean)",
                "headers / identifiers / field values contain no line-break characters; qualifier values contain no '\"'"]
 LEVEL_TEXT = ("Lean theorems (all inputs, no size bound): FASTA round trip for every wrap width >= 1; FASTQ length-driven state "
               "machine under any wrapping (no condition on score characters) + int8 offset arithmetic + full round trip; GenBank "
-              "location print/parse round trip at character level for every expressible location; GFF percent-quoting "
-              "(quote and _quote_value) invertible and delimiter-free, GFF line round trip for all strings (no whitespace "
-              "hypothesis since the writer was repaired), ID-grouped locations (get_annotation inverts set_annotation's "
-              "expansion); index = reindex(lines) after set/replace/insert/delete for FastaFile, FastqFile, GFFFile and "
-              "GenBankFile (block representation preserved by the position-shifting updates). Gen obligations on "
-              "_NOT_QUOTED, _OFFSETS, GenBank column constants. Executable model tied to the real classes op by op; "
-              "oracle write->read on whole formats. Not proved (oracle only): GenBank qualifier text scanner, ORIGIN block, "
-              "Sequence-object conversion")
+              "location print/parse round trip at character level; GenBank qualifier text round trip (writer lines vs the "
+              "regex scanner + qualifier loop of get_annotation) for keys without whitespace/'='/'\"' and values without '\"'; "
+              "feature table round trip (key column + location + qualifiers, list of features, order kept); ORIGIN block "
+              "round trip for any length and any sequence_start incl. negative; GFF percent-quoting (quote, _quote_value) "
+              "invertible and delimiter-free, GFF line round trip for all strings, ID-grouped locations; index = "
+              "reindex(lines) after set/replace/insert/delete for FastaFile, FastqFile, GFFFile and GenBankFile. Gen "
+              "obligations on _NOT_QUOTED, _OFFSETS, GenBank column constants. Executable model tied to the real classes "
+              "op by op (incl. get_annotation/set_annotation/set_sequence at line level); oracle write->read on whole "
+              "formats. Not proved (oracle only): Sequence-object conversion, LOCUS line, GenPept specifics")
 LEVEL_NOTE = "see notes/C12.md: 13 defects found and repaired in /repo (fix: commits), no open known findings"
 TECHNIQUE = "Lean 4 proof (induction over lines / entries / characters) + correspondence + regenerated tables"
 
@@ -542,9 +543,9 @@ def c_gbf_print(rng):
 def c_gbf_parse(rng):
     """malformed-ish stream: hand-made FEATURES content"""
     lines = []
-    for _ in range(rng.randint(0, 7)):
+    for j in range(rng.randint(0, 7)):
         r = rng.random()
-        if r < 0.3:
+        if r < 0.3 or (j == 0 and r < 0.85):
             lines.append("     " + rng.choice(["gene", "CDS", "x", "averyveryverylongkey"]).ljust(16) + rng.choice(
                 ["1..5", "complement(3..9)", "join(1..2,", "7", "<1..>9", "x", "", "9..5", "1..5 /pseudo", "1..5 /a=\"b\""]))
         elif r < 0.85:
@@ -725,7 +726,12 @@ def cases(rng, tier):
 
 def corpus():
     safe = _safe_codes()
+    inexpr = [{"key": "misc", "locs": [[7, 7, 0, 0]], "qual": {"note": 'a"b'}}, {"key": "misc", "locs": [[7, 7, 0, 0]], "qual": {"a=b": "v"}}]
     return [
+        # what the qualifier syntax cannot express (C12_qualifiers_quote_inexpressible): model == real code, no oracle claim
+        {"kind": "gbf_rt", "ops": ["gbf_rt " + enc_feat(inexpr[0]), "gbf_rt " + enc_feat(inexpr[1])]},
+        {"kind": "org_print", "ops": [f"org_print -5 {es('ACGTACGTACGT')}", f"org_print 1 {es('')}", f"org_print 999999999 {es('ACGT' * 31)}"],
+         "spec": {"o": "origin", "start": -5, "seq": "ACGTACGTACGT"}},
         {"kind": "fastq_rt", "ops": ["fq_new 33 2", f"fq_set {es('r')} {es('ACGT')} 31,10,10,31", "fq_reread", "fq_items"],
          "spec": {"o": "fastq", "off": 33, "cpl": 2, "hist": [["set", "r", "ACGT", [31, 10, 10, 31]]]}},
         {"kind": "loc", "ops": ["loc_rt 5:9:1:12;12:12:0:0;7:8:0:32"], "spec": {"o": "loc", "locs": [[5, 9, 1, 12], [12, 12, 0, 0], [7, 8, 0, 32]]}},
